@@ -120,13 +120,15 @@ NP_DTYPE = {"f8": np.float64, "i8": np.int64, "i4": np.int32, "b1": np.bool_, "O
 
 def label_array(labs):
     """labels list -> numpy array the way a user would pass it (str -> object via Axis)."""
-    if len(labs) and isinstance(labs[0], str):
-        return np.array(labs, dtype=object)
-    if len(labs) and isinstance(labs[0], float):
-        return np.array(labs, dtype=float)
     if len(labs) == 0:
         return np.array([], dtype=int)
-    return np.array(labs, dtype=int)
+    if all(isinstance(x, int) and not isinstance(x, bool) for x in labs):
+        return np.array(labs, dtype=int)
+    if all(isinstance(x, (int, float)) and not isinstance(x, bool) for x in labs):
+        return np.array(labs, dtype=float)
+    out = np.empty(len(labs), dtype=object)
+    out[:] = labs
+    return out
 
 
 def values_array(spec):
@@ -375,7 +377,7 @@ def same_scalar(p, q, rtol=1e-9):
     return abs(pf - qf) <= 1e-12 + rtol * max(abs(pf), abs(qf))
 
 
-def diff_axis(a, b, rtol=1e-9, what="axis", attrs=True):
+def diff_axis(a, b, rtol=1e-9, what="axis", attrs=True, kind=True):
     if type(a).__name__ != type(b).__name__:
         return "%s type %s != %s" % (what, type(a).__name__, type(b).__name__)
     if a.name != b.name:
@@ -392,7 +394,7 @@ def diff_axis(a, b, rtol=1e-9, what="axis", attrs=True):
         if va != vb:
             return "%s %s labels: %r vs %r" % (what, a.name, va, vb)
         return None
-    if label_kind(va) != label_kind(vb):
+    if kind and label_kind(va) != label_kind(vb):
         return "%s %s label kind %s != %s" % (what, a.name, label_kind(va), label_kind(vb))
     if not _close(va, vb, rtol):
         return "%s %s labels %r != %r" % (what, a.name, labels_list(va), labels_list(vb))
@@ -401,14 +403,14 @@ def diff_axis(a, b, rtol=1e-9, what="axis", attrs=True):
     return None
 
 
-def diff_arrays(a, b, rtol=1e-9, attrs=True, dtype="exact"):
+def diff_arrays(a, b, rtol=1e-9, attrs=True, dtype="exact", kind=True):
     """None if two DimArrays are observably equal, else a description of the first difference."""
     if a.dims != b.dims:
         return "dims %r != %r" % (a.dims, b.dims)
     if a.values.shape != b.values.shape:
         return "shape %r != %r" % (a.values.shape, b.values.shape)
     for ax, bx in zip(a.axes, b.axes):
-        d = diff_axis(ax, bx, rtol, attrs=attrs)
+        d = diff_axis(ax, bx, rtol, attrs=attrs, kind=kind)
         if d:
             return d
     if dtype == "exact" and a.values.dtype != b.values.dtype:
